@@ -474,8 +474,12 @@ func (eval Evaluator) SetScale(ct *rlwe.Ciphertext, scale rlwe.Scale) (err error
 	if err = eval.Mul(ct, &ratioFlo, ct); err != nil {
 		return fmt.Errorf("cannot SetScale: %w", err)
 	}
-	if err = eval.RescaleTo(ct, scale, ct); err != nil {
-		return fmt.Errorf("cannot SetScale: %w", err)
+	// A ratio that is not an integer has been scaled up by the
+	// moduli that a rescaling consumes: divides by them.
+	if !bignum.ToComplex(&ratioFlo, eval.GetParameters().EncodingPrecision()).IsInt() {
+		if err = eval.Rescale(ct, ct); err != nil {
+			return fmt.Errorf("cannot SetScale: %w", err)
+		}
 	}
 	ct.Scale = scale
 	return
